@@ -62,6 +62,10 @@ def cases(tier, seed):
             sp2["irr"]["kw"].pop("MaxIrrSeason", None)
             sp2["irr"]["kw"].pop("MaxIrr", None)
             sp = sp2
+        if i % 4 == 1:
+            # one day of extreme evaporative demand in the first season: anything derived from
+            # statistics of the whole record (which the end date and later weather change) shows
+            gen.et0_spike(rng, sp)
         out.append({"spec": sp, "seed": int(rng.integers(0, 2 ** 31 - 1))})
     return out
 
